@@ -133,6 +133,8 @@ def _pool_task(modname, key, prefix, max_paths, max_s, seed, step_limit):
         stats, left = explore(h, max_paths=max_paths, deadline=time.time() + max_s, prefix=prefix,
                               seed=seed, step_limit=step_limit)
         stats['reached'] = sorted(stats['reached'])
+        from . import loader as _loader
+        stats['entered'] = sorted(_loader.ENTERED)
         return key, stats, left
     except BaseException as x:  # pragma: no cover
         st = new_stats()
@@ -182,6 +184,7 @@ def explore_pool(modname, keys, nproc=None, chunk_paths=24, chunk_s=4.0, seed=0,
                     results[k]['errors'].append('pool: %r' % (x,))
                     continue
                 st['reached'] = set(st['reached'])
+                results[k].setdefault('entered', set()).update(st.pop('entered', []))
                 merge(results[k], st)
                 for p in left:
                     queue.append((k, p))
